@@ -11,8 +11,8 @@ func init() {
 		ID: "C05", Level: "exploration",
 		Rule: vestRuleCommon + "C05 oracle: module balance == sum(initially_locked-sent-withdrawn), pool bounds, and a rejected transaction changes nothing but the signer's sequence/pubkey and the fee. " +
 			"Non-trivial: >=3 pools alive, >=1 withdrawal>0, >=1 rejected transaction; the count of rejected sends that had already run the implicit withdrawal is reported. Distinct by history hash.",
-		Assumptions: []string{"baseapp's per-transaction cache and rollback are the production ones (real DeliverTx)"},
-		Cases:       func(t string) int { return tierN(t, 64, 3000) },
+		Assumptions:   []string{"baseapp's per-transaction cache and rollback are the production ones (real DeliverTx)"},
+		Cases:         func(t string) int { return tierN(t, 64, 3000) },
 		MinNontrivial: func(t string) int { return tierN(t, 20, 1000) },
 		Run: func(c *fw.Case) {
 			e := runVestScenario(c, "C05")
